@@ -10,8 +10,11 @@ Definition f_gf_prepare := gf_prepare fc.
 Definition f_gf_prepared := gf_prepared fc.
 Definition f_part_compute fexp := part_compute fc (fops fexp).
 Definition f_part_visits fexp := part_visits fc (fops fexp).
+Definition f_part_emissions fexp := part_emissions fc (fops fexp).
+Definition f_emissions_separated_b fexp := emissions_separated_b fc (fops fexp).
 Definition f_part_eval fexp := part_eval fc (fops fexp).
-Definition f_gf_compute fexp := gf_compute fc (fops fexp).
+Definition f_gf_compute fexp := gf_compute fc (fops fexp).            (* the shape the source has now *)
+Definition f_gf_compute_gen fexp := gf_compute_gen fc (fops fexp).    (* explicit shape flags *)
 Definition f_gf_value fexp := gf_value fc (fops fexp).
 Definition f_phi fexp := phi fc (fops fexp).
 (** the sum of the terms one multiterm generates (guards as in the code), evaluated at (z1,z2,z3) *)
@@ -27,5 +30,5 @@ Definition f_multiterm_value fexp (tl : tols fc) (Coeff beta Ei Ej Ek El Wi Wj W
     (addMultiterm fc (nadd fc NO) (nsub fc NO) (nmul fc NO) (ndiv fc NO) (nopp fc NO) (abs_gt fc NO) (abs_lt fc NO) (real_ge fc NO)
                   (t_coeff fc tl) Coeff beta Ei Ej Ek El Wi Wj Wk Wl) (0%float, 0%float).
 
-Extraction "C02_model.ml" f_tols f_gf_prepare f_gf_prepared f_part_compute f_part_visits f_part_eval f_gf_compute f_gf_value
-  f_phi f_multiterm_value.
+Extraction "C02_model.ml" f_tols f_gf_prepare f_gf_prepared f_part_compute f_part_visits f_part_emissions f_emissions_separated_b f_part_eval f_gf_compute f_gf_compute_gen f_gf_value
+  f_phi f_multiterm_value add_term_retries compute_sizes_table_before_vanishing_test compute_guards_empty_reduce.
